@@ -5,6 +5,7 @@ import (
 	"errors"
 	"fmt"
 	"io"
+	"math"
 	"strconv"
 	"strings"
 	"sync/atomic"
@@ -196,7 +197,8 @@ func (req *Request) Read(b *bufio.Reader) error {
 		if e != nil {
 			return ErrInvalidCmd
 		}
-		if !config.IsValidValueSize(uint32(length)) {
+		// the size check works on 32 bits: a count that does not fit must not wrap
+		if length < 0 || int64(length) > math.MaxUint32 || !config.IsValidValueSize(uint32(length)) {
 			return ErrValueTooLarge
 		}
 		if length > int(config.MCConf.BodyBig) {
